@@ -1,6 +1,6 @@
 """C06 (bounded stand-in): the Verilog reader builds exactly the design the source describes."""
-from props import _rtb
-LEVEL = 'exploration'
+from props import _rtb, _pv
+LEVEL = 'other'
 PID = 'C06'
 SCRIPT = 'b_c06.py'
 SPEC = {'quick': {'designs': 150, 'styles': 4, 'files': {'verilog': 70000}, 'limit': 20, 'file_limit': 60},
@@ -11,7 +11,9 @@ RULE = ('case = (seeded abstract design, style) rendered by the independent stru
 
 
 def run(rep, tier, seed):
-    rep.explanation = ('bounded stand-in only: contract on sdn.parse(.v) against an independent writer and canonicaliser: modules and their '
+    failed = _pv.run_suite(rep, PID, 'vparser', tier)
+    rep.explanation = ("helper level (P): VerilogParser.populate_new_cable / populate_new_port give a bundle declared [l:r] exactly |l-r|+1 wires / pins, lower_index min(l, r), is_downto iff r <= l (one bit and the given index, or 0, otherwise) and the declared name, raising only by the listener's naming veto, for all heaps satisfying Inv and all integer bounds; everything else: "
+                       'bounded stand-in: contract on sdn.parse(.v) against an independent writer and canonicaliser: modules and their '
                        'library (work / hdi_primitives / SDN_VERILOG_ASSIGNMENT), ports (direction, width, base), one cable per declared or '
                        'implied net, bit k of every connection expression joined to bit k of the port (named and positional maps), black boxes '
                        'for never-declared modules, assigns as joined bit pairs, 1\'b0/1\'b1 as \\<const0>/\\<const1>, parameters, attributes, top; '
@@ -20,7 +22,11 @@ def run(rep, tier, seed):
                            'single-bit breakouts .p({a, b}), `input wire` in ANSI headers, positional maps on never-declared modules, '
                            'empty positional slots, ascending ranges [lsb:msb]')
     _rtb.run(rep, PID, SCRIPT, tier, seed, SPEC, RULE, gen_bounds=_rtb.HIER_BOUNDS)
+    _pv.report_failed(rep, failed)
+    rep.trusted = list(getattr(rep, 'trusted', []) or []) + ['pyvc VC generator (DESIGN.md 3), z3/cvc5', 'IR heap model and loop invariants of specs/ir_loops.py']
+    rep.assumptions.append('the helpers are called on a bundle that has no wires / pins yet (as create_or_update_cable / _port do); integers mathematical')
 
 
 def replay(path):
+    if _pv.replay_obligation(path): return 0
     return _rtb.replay(path, PID, SCRIPT)
